@@ -14,7 +14,7 @@ namespace {
 // State threaded through one history.
 struct Ctx {
   int err = 0;  // errno left behind by the previous library call of the history (restored right before the next call)
-  string shared_mask = string("\x55\xAA\x55 stale mask bytes of an earlier use", 40);  // the mask out-parameter is never fresh
+  string shared_mask = "\x55\xAA\x55 stale mask bytes of an earlier use";  // the mask out-parameter is never fresh
   bool exact = true;
 };
 typedef std::function<string(Ctx&)> StepFn;  // returns "" or "<key>\t<detail>"
@@ -346,6 +346,7 @@ vector<DSpec> dump_history_specs() {
       {0, 0, 0, A, 0, API_FMT_PTR, 0, 0},
       {18, 0, 0xF, A | PrintDataFlags::PRINT_FLOAT | PrintDataFlags::SKIP_SEPARATOR, 0, API_CORE, 1, 0},
       {256, 1, 0x10000, PrintDataFlags::OFFSET_16_BITS, 0, API_FMT_PTR, 0, 0},
+      {20, 3, 0, A | C, 4, API_FMT_PTR, 0, 0},  // the previous buffer IS the data buffer
   };
 }
 
